@@ -34,6 +34,7 @@ var props = map[string]struct {
 	"C16":    {"model_checking", h.C16},
 	"C17":    {"model_checking", h.C17},
 	"C31":    {"model_checking", h.C31},
+	"C32":    {"exploration", h.C32},
 	"C23":    {"exploration", h.C23},
 	"C24":    {"exploration", h.C24},
 	"C25":    {"exploration", h.C25},
